@@ -21,6 +21,7 @@ func main() {
 	smLen := flag.Int("len", 4, "smx: sequence length")
 	part := flag.Int("part", 0, "smx: this process's share")
 	parts := flag.Int("parts", 1, "smx: number of shares")
+	smVariant := flag.String("variant", "fresh", "smx: fresh | preseated | waiting") // [hv-sm]
 	flag.Parse()
 	if *prof != "" {
 		f, _ := os.Create(*prof)
@@ -67,7 +68,7 @@ func main() {
 	case "engx":
 		runEngineExhaustive(*out, *part, *parts)
 	case "smx":
-		runSMExhaustive(*out, *smMax, *smLen, *part, *parts)
+		runSMExhaustive(*out, *smMax, *smLen, *part, *parts, *smVariant)
 	case "rg":
 		runRG(*out, *seed, *n)
 	default:
@@ -97,7 +98,9 @@ func replayAny(o *Out, lines []string) {
 				h.exec(parseOpLine(l))
 			}
 		case "noise":
-			if h != nil && len(f) > 1 {
+			if len(f) > 1 && f[1] == "sm" { // [hv-sm] probes of the seat-manager histories (scratch instance, no effect on the table under test)
+				smr.replay([]string{l})
+			} else if h != nil && len(f) > 1 {
 				h.noise(int(atoi(f[1])))
 			}
 		case "view":
